@@ -823,6 +823,21 @@ def dense_of(P, V):
     return D
 
 
+def valid_dense(y):
+    """dense form of a returned tensor, or None when it violates the invariants of its layout (a corrupt
+    compressed tensor can crash the process inside `.to_dense()`, so it is validated first)"""
+    try:
+        if y.layout == torch.sparse_bsr:
+            torch.sparse_bsr_tensor(torch.tensor(y.crow_indices().tolist(), dtype=torch.int64),
+                                    torch.tensor(y.col_indices().tolist(), dtype=torch.int64), y.values().clone(),
+                                    size=tuple(y.shape), check_invariants=True)
+        # (CSR results come straight from torch.addmm, an external kernel that may leave the column indices of a row
+        #  unsorted; they are not re-validated)
+        return y.to_dense() if y.layout != torch.strided else y
+    except Exception:
+        return None
+
+
 def check_sparse(ctx: Ctx, case, lines_out=None):
     PA, PB, VA, VB = sparse_build(case)
     sm, sn, sp = case["sm"], case["sn"], case["sp"]
@@ -850,7 +865,13 @@ def check_sparse(ctx: Ctx, case, lines_out=None):
     if y.layout != torch.sparse_bsr or tuple(y.shape) != (sm * dm, sp * dp) or y.dtype != va.dtype:
         ctx.fail(cc, f"sparse-type: result layout {y.layout} shape {tuple(y.shape)} dtype {y.dtype}")
         return False
-    yd = y.to_dense().double()
+    yd = valid_dense(y)
+    if yd is None:
+        ctx.fail(cc, f"sparse-invalid: {case['api']} returned a tensor that violates the BSR invariants (grid {sm}x{sn}x{sp}, "
+                     f"blocks {dm}x{dn}x{dp}, crow {y.crow_indices().tolist()[:12]}, col {y.col_indices().tolist()[:12]}, "
+                     f"{y.values().shape[0]} value blocks)")
+        return False
+    yd = yd.double()
     eps = EPS[case["dtype"]]
     if case["data"] == "int":
         good = torch.equal(yd, want)
@@ -922,10 +943,10 @@ def check_dispatch(ctx: Ctx, case, route=None):
         err = f"{type(e).__name__}: {str(e)[:80]}"
     ctx.count(f"dispatch.{case['l1']}x{case['l2']}.{outcome}")
     if outcome == "returns":
-        yd = y.to_dense() if y.layout != torch.strided else y
-        if tuple(yd.shape) != tuple(want.shape) or not torch.equal(yd.double(), want):
+        yd = valid_dense(y)
+        if yd is None or tuple(yd.shape) != tuple(want.shape) or not torch.equal(yd.double(), want):
             ctx.fail(cc, f"dispatch-product: _sparse_csr_mm({case['l1']}, {case['l2']}) returned a tensor that is not the dense "
-                         f"product (shape {tuple(yd.shape)})")
+                         f"product (shape {None if yd is None else tuple(yd.shape)})")
             return False
     if route is not None:
         must_return = route in ("mergeJoin", "addmmCsr") or (route == "addmmDense" and case["l1"] != "bsc")
@@ -1142,6 +1163,62 @@ def gen_sparse_cases(ctx: Ctx, count):
     return cases
 
 
+def sparse_canary(ctx: Ctx, cases) -> bool:
+    """The index arithmetic of `bsr_bsc_matmul` feeds torch's unchecked sparse constructors: a wrong index can corrupt
+    the heap and kill the interpreter, which no in-process check survives.  The implementation side of the sparse
+    cases is therefore first executed in a child interpreter; if the child dies, the case it was working on is the
+    failing input.  Returns True when the child survived."""
+    import json, os, subprocess, sys, tempfile
+    fd, path = tempfile.mkstemp(prefix="c10_canary_", suffix=".json")
+    os.close(fd)
+    try:
+        with open(path, "w") as f:
+            json.dump({"cases": cases}, f)
+        try:
+            p = subprocess.run([sys.executable, "-m", "harness.c10", "canary", path], cwd=str(common.VERIF),
+                               capture_output=True, text=True, timeout=900)
+        except subprocess.TimeoutExpired:
+            raise common.InfraError("sparse canary timed out")
+        if p.returncode == 0:
+            return True
+        try:
+            idx = int(open(path + ".progress").read().strip() or "-1")
+        except Exception:
+            idx = -1
+        if idx < 0 or idx >= len(cases) or p.returncode == 3:
+            raise common.InfraError(f"sparse canary failed before the first case (rc={p.returncode}): {p.stderr[-400:]}")
+        case = cases[idx]
+        ctx.fail(dict(case), f"sparse-crash: the interpreter died (exit status {p.returncode}) inside {case['api']} on a valid BSR x BSC "
+                             f"pair (grid {case['sm']}x{case['sn']}x{case['sp']}, blocks {case['dm']}x{case['dn']}x{case['dp']}, "
+                             f"patterns {case['pa']}/{case['pb']}): {p.stderr.strip().splitlines()[-1][:120] if p.stderr.strip() else ''}")
+        return False
+    finally:
+        for q in (path, path + ".progress"):
+            try:
+                os.remove(q)
+            except OSError:
+                pass
+
+
+def canary_main(path):
+    """child side of `sparse_canary`"""
+    import json, sys, warnings
+    warnings.filterwarnings("ignore")
+    try:
+        sys.path.insert(0, str(common.REPO))
+        cases = json.load(open(path))["cases"]
+        O()
+    except Exception as e:  # cannot even start: infrastructure
+        print(f"canary setup failed: {e}", file=sys.stderr)
+        sys.exit(3)
+    ctx = Ctx("C10", "quick", 0)
+    with open(path + ".progress", "w") as prog:
+        for i, case in enumerate(cases):
+            prog.seek(0); prog.write(f"{i}      "); prog.flush()
+            check_sparse(ctx, case, None)
+    sys.exit(0)
+
+
 def run_sparse(ctx: Ctx, cases):
     lines = []
     for case in cases:
@@ -1157,9 +1234,9 @@ def run_sparse(ctx: Ctx, cases):
         judge_sparse_model(ctx, cc, y, rep)
 
 
-def run_dispatch(ctx: Ctx):
+def run_dispatch(ctx: Ctx, skip_merge_join=False):
     rng = ctx.rng
-    pairs = [(a, b) for a in LAYOUTS for b in LAYOUTS]
+    pairs = [(a, b) for a in LAYOUTS for b in LAYOUTS if not (skip_merge_join and (a, b) == ("bsr", "bsc"))]
     reps = ctx.driver.run([f"c10.dispatch {a} {b}" for a, b in pairs])
     for (a, b), rep in zip(pairs, reps):
         st, toks = common.parse_reply(rep)
@@ -1174,8 +1251,11 @@ def run_dispatch(ctx: Ctx):
 
 
 def run(ctx: Ctx):
-    run_dispatch(ctx)
-    run_sparse(ctx, gen_sparse_cases(ctx, ctx.pick(500, 6000)))
+    sparse_cases = gen_sparse_cases(ctx, ctx.pick(500, 6000))
+    alive = sparse_canary(ctx, sparse_cases)
+    run_dispatch(ctx, skip_merge_join=not alive)
+    if alive:
+        run_sparse(ctx, sparse_cases)
     run_chol_cases(ctx, gen_chol_cases(ctx, ctx.pick(400, 5000)))
     run_ls(ctx, gen_ls_cases(ctx, ctx.pick(400, 5000)))
     run_cg(ctx, gen_cg_cases(ctx, ctx.pick(500, 6000)))
@@ -1191,7 +1271,9 @@ def search(ctx: Ctx):
     verdict except the exact certificate evaluation."""
     n0 = len(ctx.failures)
     for rounds in range(6):
-        run_sparse(ctx, gen_sparse_cases(ctx, 300))
+        sc = gen_sparse_cases(ctx, 300)
+        if sparse_canary(ctx, sc):
+            run_sparse(ctx, sc)
         if len(ctx.failures) > n0:
             return
         run_chol_cases(ctx, gen_chol_cases(ctx, 200))
@@ -1216,7 +1298,8 @@ def replay(ctx: Ctx, case) -> bool:
     elif kind == "cg":
         run_cg(ctx, [c])
     elif kind == "sparse":
-        run_sparse(ctx, [c])
+        if sparse_canary(ctx, [c]):
+            run_sparse(ctx, [c])
     elif kind == "dispatch":
         rep = ctx.driver.run([f"c10.dispatch {c['l1']} {c['l2']}"])[0]
         check_dispatch(ctx, c, common.parse_reply(rep)[1][1])
@@ -1225,3 +1308,9 @@ def replay(ctx: Ctx, case) -> bool:
     for d in ctx.disagreements:
         print("  model/implementation disagreement:", d["stream"], d["detail"])
     return len(ctx.failures) == n0 and not ctx.disagreements
+
+
+if __name__ == "__main__":
+    import sys as _sys
+    if len(_sys.argv) == 3 and _sys.argv[1] == "canary":
+        canary_main(_sys.argv[2])
